@@ -93,3 +93,22 @@ Lemma ex_batch :
   batch_check ck [mkSW 46 7 false; mkSW 2 26 false; mkSW 46 8 false] = Err E_InvalidData /\
   cofactor_is_one [] = Panic /\ cofactor_is_one [1; 0] = Ok true /\ cofactor_is_one [2] = Ok false.
 Proof. vm_compute. repeat split; reflexivity. Qed.
+
+(* toy target field of the shape of CP6-782 / BW6 / MNT6:  F_7^6 = F_343[v]/(v^2 - u),  F_343 = F_7[u]/(u^3 - 3);
+   r = 43 = 7^2 - 7 + 1;  g of order 43;  x of order 19 in the subfield F_343 (19 | 7^3 - 1) *)
+Definition F7c := CubicOps (ZpOps 7) 3.
+Definition F7s : Fops (Z * Z * Z * (Z * Z * Z)) := QuadOps F7c (0, 1, 0).
+Definition C7s := quad_codec (cubic_codec (fp_codec 1 7)).
+Lemma ex_po_2over3 :
+  let g := ((6, 3, 6), (5, 6, 0)) in let x := ((1, 3, 1), (0, 0, 0)) in
+  po_check F7s 43 g = Ok tt /\ fpow F7s g 43 = f1 F7s /\
+  po_check F7s 43 x = Err E_InvalidData /\ fpow F7s x 19 = f1 F7s /\ fpow F7s x 43 = ((1, 6, 6), (0, 0, 0)) /\
+  po_check F7s 43 (fmul F7s g x) = Err E_InvalidData /\
+  po_check F7s 43 (f1 F7s) = Ok tt /\ po_check F7s 43 (fneg F7s (f1 F7s)) = Err E_InvalidData /\
+  po_check F7s 43 (f0 F7s) = Err E_InvalidData /\
+  po_dec F7s C7s 43 [6; 3; 6; 5; 6; 0; 77] true = Ok (g, [77]) /\
+  po_dec F7s C7s 43 [1; 3; 1; 0; 0; 0] true = Err E_InvalidData /\
+  po_dec F7s C7s 43 [1; 3; 1; 0; 0; 0] false = Ok (x, []) /\
+  po_dec F7s C7s 43 [6; 4; 0; 2; 0; 2] true = Err E_InvalidData /\
+  po_dec F7s C7s 43 [6; 3; 6; 5; 6] true = Err E_Io.
+Proof. vm_compute. repeat split; reflexivity. Qed.
